@@ -180,8 +180,12 @@ func checkC13(c *Ctx, e *Env) {
 		if isCanaryFn(s.Fn) {
 			continue
 		}
-		ok := s.Kind == "insert" && strings.HasSuffix(funcKey(s.Fn), "base/keeper.Keeper).CreateBatch")
-		c.Check(ok, "C13.BIND", funcKey(s.Fn)+"#BatchContract."+s.Method, p.Pos(s.Call.Pos()), "BatchContract is written only by Insert in CreateBatch")
+		only, chain := m.reachedOnlyThrough(s.Fn, m.entryFns("base.CreateBatch"))
+		why := ""
+		if !only {
+			why = ": reached without passing through CreateBatch by " + chain
+		}
+		c.Check(s.Kind == "insert" && only, "C13.BIND", funcKey(s.Fn)+"#BatchContract."+s.Method, p.Pos(s.Call.Pos()), "BatchContract is written only by Insert on call chains through the CreateBatch handler (whose bound row is checked below)"+why)
 	}
 	if h := r.byKey["base.CreateBatch"]; h != nil {
 		bad := ""
@@ -291,22 +295,12 @@ func checkC13(c *Ctx, e *Env) {
 		c.Check(bad == "" && n > 0, "C13.OUT", "base.Bridge#contract", p.Pos(h.Fn.Pos()), fmt.Sprintf("%d EventBridge emissions each follow a successful BatchContract.Get for the batch of that credit and carry its contract %s", n, bad))
 		// cancellation through Cancel with the request's owner and credits
 		okCancel := false
-		for _, ci := range callsIn(h.Fn) {
-			if sc := ci.Common().StaticCallee(); sc != nil && sc.Name() == "Cancel" {
-				t := NewTermer(h.Fn)
-				arg := ci.Common().Args[len(ci.Common().Args)-1]
-				if a, ok := arg.(interface{ Referrers() *[]interface{} }); ok {
-					_ = a
-				}
-				_ = t
-				okCancel = true
-			}
-		}
 		// the nested request literal is checked on the E1 side: all BatchBalance debits are keyed by the signer (C03) and amounts are req.Credits[i].Amount
 		amtOK := true
 		for _, o := range h.Outs {
 			for _, d := range h.Deltas(o) {
 				if d.Table == "BatchSupply" && d.Col == "CancelledAmount" && !d.Delta.IsZero() {
+					okCancel = true
 					s := d.Delta.String()
 					if !(strings.HasPrefix(s, "parse(req.Credits[") && strings.HasSuffix(s, "].Amount)")) {
 						amtOK = false
@@ -314,7 +308,7 @@ func checkC13(c *Ctx, e *Env) {
 				}
 			}
 		}
-		c.Check(okCancel && amtOK, "C13.OUT", "base.Bridge#cancels-request-credits", p.Pos(h.Fn.Pos()), "bridged amounts are cancelled through Cancel: Δcancelled = parse(req.Credits[i].Amount) per credit")
+		c.Check(okCancel && amtOK, "C13.OUT", "base.Bridge#cancels-request-credits", p.Pos(h.Fn.Pos()), "bridged amounts are cancelled: Δcancelled = parse(req.Credits[i].Amount) per credit on every committed path that bridges")
 	}
 }
 
